@@ -116,3 +116,8 @@ CASES += [
                  "            if j is None:\n                j = i\n            return self.CC.get_reorganization_energy(i-1,j-1)\n", 1),
         (_AB14, "                                                self.elinds[start+i]-1)", "                                                self.elinds[start+i])", 1)]},
 ]
+
+CASES += [
+    {"name": "every failure of the temperature look-up is 'no temperature' (the repaired defect)", "kind": "mutant", "rule": "C14-N", "edits": [
+        (_SBI14, "            if len(temps) > 1:\n                raise Exception(\"Temperature of the bath is not consistent: \"\n                                +str(temps))\n", "", 1)]},
+]
